@@ -215,7 +215,9 @@ def eval_forward(c, rec):
         e = sigkit.embedded_triple(t)
         if not e.ref_verdict(check_left16=True):
             rec.finding('fwd/reference-rejects', 'embedded-0x19', c, '')
-        if e.pg_verdict()[0] != 'truthy':
+        # (PGPy verifies it with the subkey as a component of the certificate: a binding signature that was given a signature expiration time
+        # in the past leaves the subkey without a valid self-signature, which disqualifies it as a verifying key -- C17; the reference verdict stands)
+        if not c['opts'].get('expires') and e.pg_verdict()[0] != 'truthy':
             rec.finding('fwd/reimport', 'embedded-0x19', c, '')
     # carried inside a message / key
     if t.carrier_blob is not None:
